@@ -198,6 +198,9 @@ func runC03(c *core.Case) {
 			addFrames(2+c.Rng.IntN(5), cur)
 			if !pendingRollback {
 				spec.Outcome = "rollback"
+				if spec.SplitFrame {
+					spec.TornTail = c.Rng.IntN(3) // the failed write that caused the rollback
+				}
 			}
 		case "grow":
 			spec.NewPageN = cur + uint32(1+c.Rng.IntN(10))
